@@ -397,6 +397,11 @@ fn negatives() -> Vec<(&'static str, String)> {
         ("trait-path-wrong-type", format!("{}fn main() {{ string_println(Tr::m(N {{ a: 1 }})) }}\n", head)),
         // one method name defined by two inherent impls that both apply to the receiver
         ("inherent-generic-and-exact-impl", "struct Bx[T] { v: T }\nimpl[T] Bx[T] { fn m(self: Bx[T]) -> string { \"generic\" } }\nimpl Bx[int32] { fn m(self: Bx[int32]) -> string { \"exact\" } }\nfn main() { let b = Bx { v: 1 }; string_println(b.m() + Bx::m(b)) }\n".to_string()),
+        // a method spelled like a variant of its own enum: `E::name(x)` builds the variant, `x.name()` calls the method
+        ("method-named-like-a-variant-with-payload", "enum Shape { wrap(Shape), Leaf }\nimpl Shape { fn wrap(self: Shape) -> int32 { 7 } }\nfn main() { let s = Shape::Leaf; string_println(int32_to_string(s.wrap())) }\n".to_string()),
+        ("method-named-like-a-variant-without-payload", "enum Shape { leaf, Node(int32) }\nimpl Shape { fn leaf(self: Shape) -> int32 { 7 } }\nfn main() { let s = Shape::Node(1); string_println(int32_to_string(s.leaf())) }\n".to_string()),
+        ("method-named-like-a-variant-of-a-generic-enum", "enum Opt[T] { non, som(T) }\nimpl[T] Opt[T] { fn som(self: Opt[T]) -> int32 { 1 } }\nfn main() { let s: Opt[int32] = Opt::non; string_println(int32_to_string(s.som())) }\n".to_string()),
+        ("associated-function-named-like-a-variant", "enum Shape { make(int32), Leaf }\nimpl Shape { fn make(k: int32) -> Shape { Shape::Leaf } }\nfn main() { let s = Shape::make(1); string_println(match s { Shape::make(k) => \"variant\", Shape::Leaf => \"function\" }) }\n".to_string()),
         ("inherent-exact-and-generic-impl", "struct Bx[T] { v: T }\nimpl Bx[int32] { fn m(self: Bx[int32]) -> string { \"exact\" } }\nimpl[T] Bx[T] { fn m(self: Bx[T]) -> string { \"generic\" } }\nfn main() { let b = Bx { v: 1 }; string_println(b.m() + Bx::m(b)) }\n".to_string()),
         ("inherent-same-method-in-two-blocks", "struct S { a: int32 }\nimpl S { fn m(self: S) -> string { \"one\" } }\nimpl S { fn m(self: S) -> string { \"two\" } }\nfn main() { let x = S { a: 1 }; string_println(x.m() + S::m(x)) }\n".to_string()),
         ("inherent-same-method-in-two-generic-blocks", "struct Bx[T] { v: T }\nimpl[T] Bx[T] { fn m(self: Bx[T]) -> string { \"one\" } }\nimpl[U] Bx[U] { fn m(self: Bx[U]) -> string { \"two\" } }\nfn main() { let b = Bx { v: 1 }; string_println(b.m()) }\n".to_string()),
